@@ -3,7 +3,8 @@ import Relic.Model.Options
 namespace Relic.Driver.E2E
 open Relic Relic.Options
 
-def handle : List String → String
+partial def handle : List String → String
+  | "repeat" :: _n :: rest => handle ("sign" :: rest)     -- the same history n times: same expected outcome
   | ["sign", t, fixture, h, keys, flags] =>
     -- relic's JAR signer refuses an archive that has no manifest at all (explicit error, input untouched)
     if fixture = "gen:jar:nomanifest.jar" then "refused input" else
